@@ -27,6 +27,15 @@ CHECKS["C06"] = dict(
     technique="CrossHair symbolic execution + z3 over symbolic opcode arguments/tails; per-encoding-family lemmas; native replay",
     design="§4 C06")
 
+CHECKS["C09"] = dict(
+    text="Inductive step lemma per opcode, discharged by CrossHair+z3 on the real Interpreter.step()/Opcode.run and the real "
+         "pickle._Unpickler.load_*: the pre-state is a hidden stack prefix of symbolic (unbounded) depth, a window of <=3 slots with "
+         "solver-chosen mark flags and kinds, and a hidden memo of symbolic size with oracle membership; post: same window mark layout "
+         "and same memo key writes. A Confirmed lemma for every opcode covers, by induction over the program, every prefix of every "
+         "program whose operand accesses stay inside the window. Tracing passivity is checked on a per-opcode program set.",
+    technique="CrossHair+z3 inductive step lemmas (hidden-prefix stack, oracle memo) vs pickle._Unpickler; program-level native replay",
+    design="§1.3, §4 C09")
+
 NOT_APPLICABLE = {
     "C16": "every observable sits behind zipfile/zlib/torch C-level I/O; symbolic inputs are realised at the first call so the solver has nothing to decide (DESIGN §5); the pickle-level half is covered by C08",
 }
